@@ -283,24 +283,25 @@ def strPred (p : String) : Option (Bytes → Bool) :=
   else if p.startsWith "len" then (p.drop 3).toString.toNat?.map (fun k => fun v => v.length > k)
   else none
 
-def applyFilter (s : Store) (t : Txn) (f : String) : Option Txn :=
+/-- one `select` word → one link of the chain -/
+def parseFilter (s : Store) (f : String) : Option FilterOp :=
   match f.splitOn ":" with
-  | ["with", ns] => some (t.with_ s (ns.splitOn ","))
-  | ["without", ns] => some (t.without s (ns.splitOn ","))
-  | ["union", ns] => some (t.union s (ns.splitOn ","))
-  | ["withunion", ns] => some (t.withUnion s (ns.splitOn ","))
-  | ["with"] => some (t.with_ s [])
-  | ["union"] => some (t.union s [])
-  | ["withunion"] => some (t.withUnion s [])
+  | ["with", ns] => some (.with_ (ns.splitOn ","))
+  | ["without", ns] => some (.without (ns.splitOn ","))
+  | ["union", ns] => some (.union (ns.splitOn ","))
+  | ["withunion", ns] => some (.withUnion (ns.splitOn ","))
+  | ["with"] => some (.with_ [])
+  | ["union"] => some (.union [])
+  | ["withunion"] => some (.withUnion [])
   | [conv, col, p] =>
     if conv = "int" ∨ conv = "uint" ∨ conv = "float" then
       (parsePred p).map (fun np =>
         let k := (kindOf s col).getD .bool
-        t.withPred s col Kind.isNumeric (numPredOn conv k np))
-    else if conv = "str" then (strPred p).map (fun sp => t.withPred s col Kind.isTextual sp)
+        .withNum col (numPredOn conv k np))
+    else if conv = "str" then (strPred p).map (fun sp => .withString col sp)
     else if conv = "val" then
       -- WithValue with a predicate on the dynamic value, expressed on its stored bytes
-      (strPred p).map (fun sp => t.withValue s col sp)
+      (strPred p).map (fun sp => .withValue col sp)
     else none
   | _ => none
 
@@ -544,7 +545,7 @@ def stepColl (st : St) (cid : String) (c : Coll) (toks : List String) : St × St
       | "select" =>
         let filters := rest.takeWhile (· ≠ "=>")
         let action := (((rest.dropWhile (· ≠ "=>")).drop 1).map (fun a => a.splitOn ":")).flatten
-        match filters.foldlM (fun t f => applyFilter s t f) t with
+        match (filters.mapM (parseFilter s)).map (fun ops => t.chain s ops) with
         | none => (st, "bad-op")
         | some t1 =>
           match action with
